@@ -46,7 +46,20 @@ func (c *Ctx) cellSources(v ssa.Value, depth int) []string {
 		}
 		return out
 	case *ssa.Extract:
-		return []string{c.term(x)}
+		out := []string{c.term(x)}
+		// a same-package helper building the cell: what it returns, with its parameters read as the arguments
+		if call, ok := x.Tuple.(*ssa.Call); ok && x.Index == 0 {
+			if callee := helperCallee(x.Parent(), &call.Call); callee != nil {
+				intoHelper(callee, &call.Call, func() {
+					for _, r := range c.returnsOf(callee) {
+						if rv := resultValues(r); len(rv) > 0 && !isNilConst(rv[0]) {
+							out = append(out, c.cellSources(rv[0], depth+1)...)
+						}
+					}
+				})
+			}
+		}
+		return out
 	}
 	return []string{c.term(v)}
 }
@@ -75,15 +88,35 @@ func ruleP1(c *Ctx) {
 	// the closure compares with the earlier value of the same key and remembers the new one
 	{
 		vf := vb.Fn.(*ssa.Function)
+		// a bound method value (checker.valid): the synthetic wrapper only forwards to the method
+		if vf.Synthetic != "" {
+			allInstrs(vf, func(in ssa.Instruction) {
+				if cc := callCommon(in); cc != nil && cc.StaticCallee() != nil && len(cc.StaticCallee().Blocks) > 0 {
+					vf = cc.StaticCallee()
+				}
+			})
+		}
+		var keyP, valP *ssa.Parameter
+		for _, p := range vf.Params {
+			if types.Identical(p.Type(), types.Typ[types.String]) {
+				keyP = p
+			} else if _, isPtr := p.Type().Underlying().(*types.Pointer); isPtr {
+				valP = p
+			}
+		}
+		if keyP == nil || valP == nil {
+			c.undecided("tripleToRow validBinding", fn.Pos(), "the binding-consistency function has no (string, *Cell) parameters")
+			return
+		}
 		hasLookup, hasUpdate, hasCompare := false, false, false
 		allInstrs(vf, func(in ssa.Instruction) {
 			switch x := in.(type) {
 			case *ssa.Lookup:
-				if x.CommaOk && isValueOfParam(x.Index, vf.Params[0]) {
+				if x.CommaOk && isValueOfParam(x.Index, keyP) {
 					hasLookup = true
 				}
 			case *ssa.MapUpdate:
-				if isValueOfParam(x.Key, vf.Params[0]) && isValueOfParam(x.Value, vf.Params[1]) {
+				if isValueOfParam(x.Key, keyP) && isValueOfParam(x.Value, valP) {
 					hasUpdate = true
 				}
 			case *ssa.Call:
@@ -94,11 +127,36 @@ func ruleP1(c *Ctx) {
 		})
 		okRet := true
 		vfi := c.fi(vf)
+		type trueAt struct {
+			blk  *ssa.BasicBlock
+			edge []Fact // the branch taken out of blk, for a phi edge
+		}
+		var trues []trueAt
 		for _, r := range c.returnsOf(vf) {
-			if k, ok := r.Results[0].(*ssa.Const); ok && k.Value != nil && constant.BoolVal(k.Value) {
+			switch x := r.Results[0].(type) {
+			case *ssa.Const:
+				if x.Value != nil && constant.BoolVal(x.Value) {
+					trues = append(trues, trueAt{r.Block(), nil})
+				}
+			case *ssa.Phi:
+				// return !ok || reflect.DeepEqual(c, v): the constant-true edges of the short-circuit
+				for i, e := range x.Edges {
+					if k, ok := e.(*ssa.Const); ok && k.Value != nil && k.Value.Kind() == constant.Bool && constant.BoolVal(k.Value) {
+						pb := x.Block().Preds[i]
+						var ef []Fact
+						if iff, ok := pb.Instrs[len(pb.Instrs)-1].(*ssa.If); ok && pb.Succs[0] != pb.Succs[1] {
+							ef = expandFact(Fact{iff.Cond, pb.Succs[0] == x.Block()})
+						}
+						trues = append(trues, trueAt{pb, ef})
+					}
+				}
+			}
+		}
+		for _, tr := range trues {
+			{
 				// true is returned only when the key was new or the values are deeply equal
 				okFact := false
-				for _, ft := range vfi.factsAt(r.Block()) {
+				for _, ft := range append(append([]Fact{}, tr.edge...), vfi.factsAt(tr.blk)...) {
 					if lk, isLk := commaOkOn(ft.Cond); isLk && !ft.Truth && lk != nil {
 						okFact = true
 					}
@@ -328,6 +386,43 @@ func (c *Ctx) factsForInstr(in ssa.Instruction) []Fact {
 	return out
 }
 
+// factsForInstrWithin extends factsForInstr through named helpers: when the instruction sits in a top-level function
+// other than root, the facts that hold at *every* call site of that function inside the given set of functions
+// (those reachable from root) are added — a helper called only from the construct branch inherits that branch's facts.
+func (c *Ctx) factsForInstrWithin(in ssa.Instruction, root *ssa.Function, within map[*ssa.Function]bool, depth int) []Fact {
+	out := c.factsForInstr(in)
+	top := in.Parent()
+	for top.Parent() != nil {
+		top = top.Parent()
+	}
+	if top == root || depth > 3 {
+		return out
+	}
+	var common map[string]Fact
+	for _, site := range c.callSites().sites[top] {
+		if !within[site.Parent()] {
+			continue
+		}
+		here := map[string]Fact{}
+		for _, ft := range c.factsForInstrWithin(site, root, within, depth+1) {
+			here[fmt.Sprintf("%s=%v", c.term(ft.Cond), ft.Truth)] = ft
+		}
+		if common == nil {
+			common = here
+			continue
+		}
+		for k := range common {
+			if _, ok := here[k]; !ok {
+				delete(common, k)
+			}
+		}
+	}
+	for _, ft := range common {
+		out = append(out, ft)
+	}
+	return out
+}
+
 func ruleP3(c *Ctx) {
 	c.Rule("P3", "the driver call made for a clause uses exactly its fixed components: on each of the eight nil-patterns of (S,P,O) simpleFetch calls the storage.Graph method whose node/predicate/object parameters are precisely the components known non-nil on that path, and passes the clause's own components", 8)
 	fn := c.mustFunc("bql/planner", "simpleFetch")
@@ -348,8 +443,24 @@ func ruleP3(c *Ctx) {
 		return ""
 	}
 	patterns := map[string]string{}
-	withClosures(fn, func(f *ssa.Function) {
-		allInstrs(f, func(in ssa.Instruction) {
+	// simpleFetch, its closures, and the same-package helpers it hands the clause's components to (judged under the
+	// facts of the call site plus their own)
+	var walk func(root *ssa.Function, ctx []Fact, d int, visit func(in ssa.Instruction, facts []Fact))
+	walk = func(root *ssa.Function, ctx []Fact, d int, visit func(in ssa.Instruction, facts []Fact)) {
+		withClosures(root, func(f *ssa.Function) {
+			allInstrs(f, func(in ssa.Instruction) {
+				facts := append(append([]Fact{}, ctx...), c.factsForInstr(in)...)
+				visit(in, facts)
+				if cc := callCommon(in); cc != nil && d < 2 {
+					if callee := helperCallee(f, cc); callee != nil && callee.Parent() == nil {
+						intoHelper(callee, cc, func() { walk(callee, facts, d+1, visit) })
+					}
+				}
+			})
+		})
+	}
+	walk(fn, nil, 0, func(in ssa.Instruction, inFacts []Fact) {
+		{
 			call, ok := in.(*ssa.Call)
 			if !ok || !call.Call.IsInvoke() || !isNamed(call.Call.Value.Type(), modPath+"/storage", "Graph") {
 				return
@@ -372,7 +483,7 @@ func ruleP3(c *Ctx) {
 			}
 			// known-nil / known-non-nil components on this path
 			state := map[string]string{}
-			for _, ft := range c.factsForInstr(in) {
+			for _, ft := range inFacts {
 				bo, ok := ft.Cond.(*ssa.BinOp)
 				if !ok || (bo.Op != token.EQL && bo.Op != token.NEQ) || !isNilConst(bo.Y) {
 					continue
@@ -451,7 +562,7 @@ func ruleP3(c *Ctx) {
 			} else {
 				c.ok(key, in.Pos(), "method parameters = the components known non-nil on the path; arguments are cls.S/P/O")
 			}
-		})
+		}
 	})
 	if len(patterns) != 8 {
 		var ps []string
@@ -541,7 +652,7 @@ func ruleP5(c *Ctx) {
 // ---- P6 limit push-down guard ----------------------------------------------------------------------------
 
 func ruleP6(c *Ctx) {
-	c.Rule("P6", "the statement limit is pushed into the driver lookup only when no later stage reorders or drops rows: each site copying Statement.Limit() into a fetch is guarded by emptiness tests of GROUP BY, ORDER BY and HAVING and by a single-clause pattern", 2)
+	c.Rule("P6", "the statement limit is pushed into the driver lookup only when no later stage reorders or drops rows: each site copying Statement.Limit() into a fetch is guarded by emptiness tests of GROUP BY, ORDER BY and HAVING and by a single-clause pattern", 1)
 	n := 0
 	for _, fn := range c.srcFuncs("bql/planner") {
 		allInstrs(fn, func(in ssa.Instruction) {
@@ -565,6 +676,13 @@ func ruleP6(c *Ctx) {
 					case *ssa.Call:
 						if f := x.Call.StaticCallee(); f != nil && f.Name() == "simpleFetch" {
 							reaches = true
+						}
+					case *ssa.Return:
+						// a helper computing the pushed-down limit: follow its result at every call site
+						for _, site := range c.callSites().sites[x.Parent()] {
+							if cv, ok := site.(ssa.Value); ok {
+								walk(cv, d+1)
+							}
 						}
 					}
 				}
@@ -611,7 +729,7 @@ func ruleP6(c *Ctx) {
 			}
 		})
 	}
-	if n < 2 {
+	if n < 1 {
 		c.undecided("limit push-down sites", token.NoPos, "only %d push-down sites found", n)
 	}
 }
@@ -809,7 +927,7 @@ func ruleP9(c *Ctx) {
 			for m, sites := range found {
 				for _, site := range sites {
 					flag := ""
-					for _, ft := range c.factsForInstr(site) {
+					for _, ft := range c.factsForInstrWithin(site, ex, seen, 0) {
 						t := c.term(ft.Cond)
 						if strings.HasSuffix(t, ".construct") {
 							flag = fmt.Sprint(ft.Truth)
